@@ -9,6 +9,10 @@ from checks import common
 
 PROP = 'C08'
 
+
+class JobExit(SystemExit):
+    """A job body that ends through sys.exit(): an exception outside the Exception hierarchy."""
+
 # client programs: list of clients, each a list of (op, job id, flags)
 SCENARIOS = {
     'add-add|insert': [[('add', 1), ('add', 2)], [('insert', 3)]],
@@ -74,12 +78,14 @@ def scenario(ctx, clients, max_preempt, raising):
                     if not jc.is_running(self.ident):
                         problems.append('background job %s is executing but is_running(%r) is False' % (self.ident, self.ident))
                 s.yield_point('job body')
-                fails = raising and ctx.choose(2, 'job-raises') == 1
+                fails = ctx.choose(3, 'job-raises') if raising else 0      # 0 returns, 1 raises an Exception, 2 raises a BaseException (sys.exit())
                 if not self.background:
                     running['queued'] -= 1
                 events.append(('end', self.ident))
-                if fails:
+                if fails == 1:
                     raise RuntimeError('job %s fails' % (self.ident,))
+                if fails == 2:
+                    raise JobExit('job %s fails' % (self.ident,))
 
             def request_stop(self):
                 pass
@@ -110,7 +116,7 @@ def scenario(ctx, clients, max_preempt, raising):
         left = s.run()
         # ---- verdicts for this schedule ----
         for t in s.threads:
-            if t.exc is not None and not (isinstance(t.exc, RuntimeError) and 'fails' in str(t.exc)):
+            if t.exc is not None and not (isinstance(t.exc, (RuntimeError, JobExit)) and 'fails' in str(t.exc)):
                 problems.append('%s: exception escapes: %s: %s' % (t.name, type(t.exc).__name__, t.exc))
         if s.out_of_steps:
             problems.append('schedule does not finish within the step bound')
